@@ -19,6 +19,48 @@ CHECKS = {
         note="Not decided: decode(encode(x)) == x by enumeration (follows from T1+L1 given bytes' primitives); non-minimal input "
              "encodings are re-encoded minimally.",
         design="5/C18"),
+    "C12": dict(
+        technique="interval analysis + operator-tree normal form + encoder layout extraction (MIR)",
+        text="Decides on MIR: (X1) every arithmetic op of the fee predicate discharged by intervals over the full input ranges, None arms of checked "
+             "ops return false, in both overflow configurations (thorough); (X2) the returned comparison's operator tree, checked ops read as exact on "
+             "their Some paths, equals total >= amount + base + floor(amount*ppm/10^6); (T) field widths; (F) the failure encoder's byte layout per "
+             "variant equals 0x20,26||be32||be32||be16 and the two constant codes; (P) the policy payload is HtlcManagerParams::routing_policy; (G) gates.",
+        note="Exactness over u64 x u64 x u32 x u32 follows from X1+X2, it is not enumerated. Only cmp(total, sum) / cmp(total-amount, sum) shapes are accepted as normal form.",
+        design="5/C12"),
+    "C02": dict(
+        technique="CFG path/typestate rules over the lifecycle coroutine's MIR + store write-record extraction",
+        text="Decides, for every path of the lifecycle coroutine, the typestate clauses S1-S6 (fetch first; Pending => wait first; wait error never fails; "
+             "mark_failed only after Ok(None)/pay Err and required Ok before collecting; fail requests only pre-payment; after pay fail only on Err) and S7 "
+             "(generation-guarded Free write in every Datastore impl).",
+        note="Not decided: the schedule/crash-point space as executions; node-side pay state after an RPC connection error.",
+        design="5/C02"),
+    "C05": dict(
+        technique="CFG reachability/dominance rules + who-references rule (MIR)",
+        text="Decides A1 (Succeeded short-circuit with the stored preimage), A2 (from Pending, pay only via wait==Ok(None) and mark_failed==Ok), A3 (lifecycle "
+             "referenced once, inside Entry::or_insert_with's closure, spawned; single pay site outside loops), A4 (pay only via add_payment_attempt==Ok), "
+             "A5 (exactly one answer per lifecycle path).",
+        note="Not decided: a second lifecycle overlapping the first one's post-answer bookkeeping (mechanism clauses C02-S7/C08 are decided).",
+        design="5/C05"),
+    "C08": dict(
+        technique="dominance rules on the lifecycle + per-method write-record extraction from Datastore impls (MIR def-use)",
+        text="Decides W1 (pay only through add_payment_attempt==Ok; the impl returns Ok only after its awaited Pending write, which comes first), W2 (Free only "
+             "in mark_failed, guarded, generation-conditional), W3 (Succeeded stores the settling preimage), W4 (fetch mapping), W5 (no deletion, per-hash keys).",
+        note="Not decided: every execution prefix as a crash image at the node; overlapping lifecycles.",
+        design="5/C08"),
+    "C09": dict(
+        technique="effect-sequence typestate: explicit fixed point over abstract stored images using write records extracted from MIR",
+        text="Extracts (key kind, mode, generation guard, payload) of every datastore write per Datastore method, explores all images reachable by crashes / "
+             "rejected / applied-but-failed writes, and requires every fault-free recovery write to be satisfiable on every reachable image; must-create keys "
+             "must be clock-fresh.",
+        note="Assumes documented CLN datastore mode semantics; the lifecycle's choice of recovery call per stored state is decided by C02-S2/S4, C05-A2 (re-checked here).",
+        design="5/C09"),
+    "C11": dict(
+        technique="def-use provenance of the timer value per reaching definition + select-arm path rules (MIR)",
+        text="Decides T1 (sleep operand is mpp_timeout or mpp_timeout.saturating_sub(age of the stored attempt); Pending reaches the select only through that "
+             "computation), T2 (is_zero guard => immediate 0x2019, no pay), T3 (timer arm answers 0x2019 once, cannot pay/write), T4 (nothing answered before "
+             "the select on the Free arm; operands are exactly timer/fail/ready).",
+        note="Not decided: wall-clock behaviour, tokio timer accuracy.",
+        design="5/C11"),
 }
 
 NOT_APPLICABLE = {}
